@@ -5,6 +5,10 @@ HERE = os.path.dirname(os.path.dirname(os.path.abspath(__file__)))
 ALL = ["C%02d" % i for i in range(1, 21)]
 # id -> (technique, level text, level note, design ref)
 CHECKS = {
+ "C12": ("exhaustive decision table executed against the real receiver in both roles with a scripted reference sender recording requested indices, plus explicit-state BFS over sync histories with wire taps",
+         "all cells {missing, same, larger, smaller} x 5 mtime relations x content equal/different x {default,-c,-I,-cI} x {-t on/off} x non-regular destination types x 3 sibling positions x {client, daemon module} and BFS depth 3 (thorough 4) over edits and syncs with 5 option sets; the decoded request set of every real session must equal the reference rule, no-op syncs move no data, model successor states are validated against the real destination",
+         "trusts the reference rule transcription and refproto's decoding of requests; history universe is 2 files",
+         "DESIGN.md §5 C12"),
  "C16": ("bounded-exhaustive enumeration of shifts and edit scripts against the real sender (reference-computed sums) and of whole sessions with the real generator; literal bytes counted from the decoded token stream",
          "every shift 0..B for B in {8,32,700}, every edit script of depth <=2 over {insert,delete,replace} x 5 lengths x 9 offsets, identical/prepend/append/all block permutations, and real-generator sessions at 28 KB/600 KB (thorough: 1-20 MiB); each stream must denote the target and stay within inserted + 3B per edit + B literal bytes (0 for identical files and permutations)",
          "bound has 3B slack per edit; content is counter-hash (no accidental repeats); efficiency on low-entropy data is not demanded",
